@@ -613,6 +613,11 @@ def gen_heap(rng):
         else:
             if depth > 0:
                 ops.append(['redo'])
+    if rng.random() < 0.4:
+        # the end of the history: every generator that is still suspended is closed (all bindings undone); the retained
+        # answers are looked at once more after each of these steps
+        for _ in range(min(depth, 8)):
+            ops.append(['pop'])
     return {'kind': 'heap', 'nvars': nv, 'ops': ops, 'keys': [list(k) for k in keys], 'reads': reads}
 
 def gen(rng, tier):
